@@ -10,8 +10,7 @@ import (
 	"verifharness/dag"
 )
 
-// Small-scope enumeration (thorough tier): every DAG of up to 3 nodes, and a
-// deterministic sample of the 4-node ones, built from blobs, image manifests
+// Small-scope enumeration (thorough tier): every DAG of up to 4 nodes built from blobs, image manifests
 // (config + up to two layers, one layer possibly listed twice), indexes (one or
 // two members) and artifact manifests (optional subject, at most one blob);
 // crossed by the caller with every root and every successor-closed initial
@@ -126,14 +125,10 @@ func SmallGraphs() []*dag.Graph {
 		count4 := 0
 		rec = func(g *dag.Graph, depth int) {
 			if len(g.Nodes) > 0 {
-				if len(g.Nodes) < 4 {
-					smallAll = append(smallAll, g)
-				} else {
+				if len(g.Nodes) == 4 {
 					count4++
-					if count4%41 == 0 { // deterministic sample of the 4-node graphs
-						smallAll = append(smallAll, g)
-					}
 				}
+				smallAll = append(smallAll, g) // every graph of up to 4 nodes
 			}
 			if depth == 4 {
 				return
@@ -166,6 +161,9 @@ func SmallCases() []uint64 {
 					continue
 				}
 				for dst := 0; dst < 2; dst++ {
+					if dst == 1 && n == 4 {
+						continue // the 4-node graphs: memory destination only (volume); OCI layout up to 3 nodes
+					}
 					out = append(out, ((uint64(gi)*8+uint64(root))*64+uint64(mask))*2+uint64(dst))
 				}
 			}
@@ -184,7 +182,8 @@ func smallCase(code uint64) *Case {
 	g := SmallGraphs()[gi]
 	c := &Case{Stream: "small", Graph: g.Encode(), Root: root, MapRoot: -1, FailNode: -1,
 		K: 1 + (gi+root+mask)%3, Mode: []string{"g", "t", "r"}[(gi+mask)%3], Src: "mem", Dst: []string{"mem", "oci"}[dst],
-		SrcRef: "v1", RefFetch: (gi+root)%2 == 0, Seed: uint64(gi)*7919 + uint64(mask)}
+		SrcRef: "v1", RefFetch: (gi+root)%2 == 0, Seed: uint64(gi)*7919 + uint64(mask), Fast: true,
+		CbSet: []string{"11111", "00000", "10100", "01011"}[(gi+root+mask)%4]}
 	if mask%2 == 0 {
 		c.DstRef = "copy"
 	}
